@@ -58,6 +58,10 @@ Range(s)         == {s[i] : i \in 1..Len(s)}
 Mark(cond, name) == IF cond THEN {} ELSE {name}
 Min2(x, y)       == IF x <= y THEN x ELSE y
 
+\* TLC passes operator arguments and LET definitions unevaluated and may evaluate them again at
+\* every use; a bound variable holds a value.  Eager(x, Op) = Op(x) with x evaluated once.
+Eager(x, Op(_)) == CHOOSE y \in {Op(v) : v \in {x}} : TRUE
+
 RECURSIVE SortedSeq(_)
 SortedSeq(S) == IF S = {} THEN <<>>
                 ELSE LET m == CHOOSE x \in S : \A y \in S : x <= y
@@ -170,11 +174,16 @@ ApplyAct(cfg, t, r, act) ==
 
 RECURSIVE Fold(_, _, _, _, _)
 Fold(cfg, t, r, bundle, n) ==
-  IF n > Len(bundle) THEN t ELSE Fold(cfg, ApplyAct(cfg, t, r, bundle[n]), r, bundle, n + 1)
+  IF n > Len(bundle) THEN t
+  ELSE LET Rest(t2) == Fold(cfg, t2, r, bundle, n + 1)
+       IN Eager(ApplyAct(cfg, t, r, bundle[n]), Rest)
 
-RowFinal(cfg, before, bundle, r) == Fold(cfg, RowStart(cfg, before, r), r, bundle, 1)
-RowsAfter(cfg, before, bundle) ==
-  {r \in RowsOf(before) \cup BundleRows(bundle) : RowFinal(cfg, before, bundle, r).ex}
+RowFinal(cfg, before, bundle, r) ==
+  LET All(t0) == Fold(cfg, t0, r, bundle, 1) IN Eager(RowStart(cfg, before, r), All)
+\* every row that exists before or is named by the bundle |-> its state after the bundle
+FinalAll(cfg, before, bundle) ==
+  [r \in RowsOf(before) \cup BundleRows(bundle) |-> RowFinal(cfg, before, bundle, r)]
+Existing(fin) == {r \in DOMAIN fin : fin[r].ex}
 
 \* the actions of the bundle make sense in the state they are applied to
 RECURSIVE WellFormed(_, _, _)
@@ -187,38 +196,46 @@ WellFormed(rows, bundle, n) ==
             [] OTHER          -> IsSchema(act) /\ WellFormed(rows, bundle, n + 1)
 
 (* ---- the relation ----------------------------------------------------- *)
-CellClauses(kc, c, v, schemaOnly) ==
-  IF v >= c.b + c.lo /\ v <= c.b + c.hi THEN {}
-  ELSE IF c.kept THEN {"C15.kept"}
-  ELSE IF c.lo >= 1 /\ v < c.b + c.lo THEN {"C15.must"}
-  ELSE IF schemaOnly THEN {"C15.schema"}
-  ELSE IF kc.when = NEVER THEN {"C15.never"}
-  ELSE {"C15.mustnot"}
+\* a failure is [r |-> row, col |-> trigger column, c |-> clause] (r = 0, col = "": the whole step)
+Fail(r, col, c) == [r |-> r, col |-> col, c |-> c]
+CellClause(kc, c, v, schemaOnly) ==
+  IF c.kept THEN "C15.kept"
+  ELSE IF c.lo >= 1 /\ v < c.b + c.lo THEN "C15.must"
+  ELSE IF schemaOnly THEN "C15.schema"
+  ELSE IF kc.when = NEVER THEN "C15.never"
+  ELSE "C15.mustnot"
+CellFailures(r, kc, c, v, schemaOnly) ==
+  IF v >= c.b + c.lo /\ v <= c.b + c.hi THEN {} ELSE {Fail(r, kc.id, CellClause(kc, c, v, schemaOnly))}
 
 \* one observed row against the folded state of that row
-RowClauses(cfg, t, o, schemaOnly) ==
+RowFailures(cfg, t, o, schemaOnly) ==
   \* the cells the classification rests on are what the actions wrote (A, B) and F = A * 10
-  IF ~(t.ex /\ o.A = t.a /\ o.B = t.b /\ o.F = 10 * o.A /\ Len(o.k) = Len(cfg)) THEN {"C15.bind"}
-  ELSE UNION {CellClauses(cfg[j], t.cell[j], o.k[j], schemaOnly) : j \in 1..Len(cfg)}
+  IF ~(t.ex /\ o.A = t.a /\ o.B = t.b /\ o.F = 10 * o.A /\ Len(o.k) = Len(cfg)) THEN {Fail(o.r, "", "C15.bind")}
+  ELSE UNION {CellFailures(o.r, cfg[j], t.cell[j], o.k[j], schemaOnly) : j \in 1..Len(cfg)}
 
-Clauses(cfg, before, bundle, after) ==
-  IF ~InScope(cfg) \/ ~WellFormed(RowsOf(before), bundle, 1) THEN {"C15.scope"}
-  ELSE
+FailuresFin(cfg, fin, bundle, after) ==
   LET schemaOnly == \A n \in 1..Len(bundle) : IsSchema(bundle[n])
-  IN Mark(RowsOf(after) = RowsAfter(cfg, before, bundle) /\ Len(after) = Cardinality(RowsOf(after)),
-          "C15.bind") \cup
-     UNION {RowClauses(cfg, RowFinal(cfg, before, bundle, after[i].r), after[i], schemaOnly) :
-              i \in 1..Len(after)}
+      rows       == Existing(fin)
+  IN IF RowsOf(after) # rows \/ Len(after) # Cardinality(rows) THEN {Fail(0, "", "C15.bind")}
+     ELSE UNION {RowFailures(cfg, fin[after[i].r], after[i], schemaOnly) : i \in 1..Len(after)}
 
-Ok(cfg, before, bundle, after)   == Clauses(cfg, before, bundle, after) = {}
+Failures(cfg, before, bundle, after) ==
+  IF ~InScope(cfg) \/ ~WellFormed(RowsOf(before), bundle, 1) THEN {Fail(0, "", "C15.scope")}
+  ELSE UNION {FailuresFin(cfg, fin, bundle, after) : fin \in {FinalAll(cfg, before, bundle)}}
+
+Clauses(cfg, before, bundle, after) == {f.c : f \in Failures(cfg, before, bundle, after)}
+
+Ok(cfg, before, bundle, after)   == Failures(cfg, before, bundle, after) = {}
 Step(cfg, before, bundle, after) == Ok(cfg, before, bundle, after)
 
 (* ---- reference outcome: one evaluation at the end of the bundle where one is due ----------- *)
 RefRow(cfg, r, t) ==
   LET V(j) == t.cell[j].b + t.cell[j].lo
   IN [r |-> r, A |-> t.a, B |-> t.b, F |-> 10 * t.a, k |-> PerCol(cfg, V)]
+RefFin(cfg, fin) ==
+  LET Rows(rows) == [i \in 1..Len(rows) |-> RefRow(cfg, rows[i], fin[rows[i]])]
+  IN Eager(SortedSeq(Existing(fin)), Rows)
 RefAfter(cfg, before, bundle) ==
-  LET rows == SortedSeq(RowsAfter(cfg, before, bundle))
-  IN [i \in 1..Len(rows) |-> RefRow(cfg, rows[i], RowFinal(cfg, before, bundle, rows[i]))]
+  LET Ref(fin) == RefFin(cfg, fin) IN Eager(FinalAll(cfg, before, bundle), Ref)
 
 =============================================================================
